@@ -4,6 +4,7 @@ import Skc.Model.Pen
 import Skc.Model.Det
 import Skc.Model.Conv
 import Skc.Model.Cuts
+import Skc.Model.Anomaliser
 import Skc.Gen.KernelsFloat
 /-! Line-protocol driver over the executable models (`lake exe skcdrv` or
     `lake env lean --run Driver.lean`): one operation per input line, one canonical output line
@@ -261,6 +262,31 @@ def handleCutRow (ws : List String) : String :=
     | _, _, _ => "bad-op"
   | _ => "bad-op"
 
+/-- `statanom <stat> n lo hi k c_1 … c_k v_0 … v_{n-1}` with `stat` in {mean, sum, range, first}
+    (exact rational statistics of the rows of a segment) → the flagged segments -/
+def handleStatAnom (ws : List String) : String :=
+  match ws with
+  | st :: n :: lo :: hi :: k :: rest =>
+    match n.toNat?, parseRat lo, parseRat hi, k.toNat?, rest.mapM parseRat with
+    | some n, some lo, some hi, some k, some nums =>
+      if nums.length ≠ k + n then "bad-op" else
+      let cps := (nums.take k).map (fun r => r.num.toNat)
+      let vals := (nums.drop k).toArray
+      let seg (s e : Nat) : List Rat := (List.range (e - s)).map (fun i => vals.getD (s + i) 0)
+      let stat : Option (Nat → Nat → Rat) :=
+        match st with
+        | "mean" => some (fun s e => sumL (seg s e) / ((e - s : Nat) : Rat))
+        | "sum" => some (fun s e => sumL (seg s e))
+        | "range" => some (fun s e =>
+            (seg s e).foldl max (vals.getD s 0) - (seg s e).foldl min (vals.getD s 0))
+        | "first" => some (fun s _ => vals.getD s 0)
+        | _ => none
+      match stat with
+      | some f => toString (statAnoms f lo hi cps n)
+      | none => "bad-op"
+    | _, _, _, _, _ => "bad-op"
+  | _ => "bad-op"
+
 def handle (line : String) : String :=
   let ws := (line.trimAscii.toString.splitOn " ").filter (· ≠ "")
   match ws with
@@ -274,6 +300,7 @@ def handle (line : String) : String :=
   | "mw" :: rest => handleMw rest
   | "kern" :: rest => handleKern rest
   | "cutrow" :: rest => handleCutRow rest
+  | "statanom" :: rest => handleStatAnom rest
   | "s2d_coll" :: rest => handleConv "s2d_coll" rest
   | "d2s_coll" :: rest => handleConv "d2s_coll" rest
   | "s2d_cp" :: rest => handleConv "s2d_cp" rest
